@@ -22,7 +22,7 @@ def parse_family(focus, quick_n, thorough_n, maxlen=7, inputs_per=3):
 
 
 PROPS = {
-    'C01': dict(level='proof', theorem_modules=['C01'], min_theorems=8, tags=['C01'], crash_counts=True,
+    'C01': dict(level='proof', theorem_modules=['C01', 'C09Lookahead'], min_theorems=12, tags=['C01'], crash_counts=True,
                 gen=parse_family('C01', 1500, 40000), flavours=['c'],
                 rule='random grammars (1-5 nonterminals, nullable/recursive/ambiguous/error shapes) x sampled sentences, prefixes, mutations, random strings; every input parsed at lookahead 0,1,2 with random one_parse/cost and recovery on/off; non-trivial = distinct case text with at least one judged parse',
                 assumptions=COMMON_ASSUME + ['accepts_iff_sentence is proved for lookahead level 0 (and soundness for every level); levels 1/2 are tied by the set-level correspondence and cross-level comparison']),
@@ -50,7 +50,7 @@ PROPS = {
                 gen=parse_family('C08', 1500, 40000, maxlen=9), flavours=['c'],
                 rule='grammars with error rules, non-sentences <= 9 tokens, recovery_match 1..5, lookahead 0-2: the number of tokens the first callback reports ignored vs the minimum over all simple recoveries (back position with `. error` x forward skip) computed by brute force from the statement over the model sets',
                 assumptions=COMMON_ASSUME + ['recover_minimal is proved for the recovery model under r.ok (search finished within fuel); the oracle simpleRecoveryCosts is the property statement itself']),
-    'C09': dict(level='proof', theorem_modules=['C09', 'C01'], min_theorems=8, tags=['C09'], crash_counts=True,
+    'C09': dict(level='proof', theorem_modules=['C09', 'C09Lookahead', 'C01'], min_theorems=12, tags=['C09'], crash_counts=True,
                 gen=lambda seed, tier: parse_family('C09', 1200, 30000)(seed, tier) + long_c09_cases(seed, tier), flavours=['c'],
                 rule='each input parsed at lookahead -3,0,1,2,7 and at several debug levels with otherwise identical flags: all observables (rc, callbacks, ambiguity flag, denoted tree set with costs) must be identical; goto-cache self-check hook on every parse',
                 assumptions=COMMON_ASSUME + ['verdict_indep_of_la01 / firstError_indep_of_la01 proved for levels 0/1; level 2 only through cross-level comparison']),
@@ -148,7 +148,9 @@ def fault_scenarios(seed, tier):
         else:
             lines += fixed.text(0)
             lines.append('text 0 %s' % text.hex())
-        ops = ['create 1', 'def 1 0', 'create 0']
+        # the bystander of description scenarios is defined through a description too (second
+        # yaep_parse_grammar call of the process is the one that fails)
+        ops = ['create 1', 'def 1 0' if g is not None else 'descr 1 0 1', 'create 0']
         ops.append('def 0 0' if g is not None else 'descr 0 0 1')
         for k, v in cfg.items(): ops.append('set 0 %s %d' % (k, v))
         ops.append('parse 0 user user 0 %s' % ' '.join(map(str, toks)))
